@@ -622,10 +622,15 @@ H("C03", "patch", "c03_apply_delete_data", bounds=_APB + "D at block 2, 2 blocks
 H("C03", "patch", "c03_apply_expand_data", bounds=_APB + "E at block 1, 3 blocks, ps4, data file does not exist yet", **_AP)
 H("C03", "patch", "c03_apply_delete_data_across_end", bounds=_APB + "D at block 2, 4 blocks, ps3, file of 384 bytes (range starts inside, ends behind the end)", **_AP)
 # NOT registered (harness code kept in harness/patch.rs; measured 2026-09-29): c03_apply_add_data*, c03_apply_add_file_*,
-# c03_apply_delete_file, c03_apply_make_dir_tree, c03_apply_header_update_*, c03_apply_second_target_info_wins were each killed
+# c03_apply_header_update_*, c03_apply_second_target_info_wins were each killed
 # at the 10 GB cap when run six at a time; c03_apply_add_data alone: symbolic execution 455 s, then the SAT back end ran out of
 # memory beyond 32 GB; c04_create_* lose the constants of the path String
 # (borrowed through three enum levels by the derived BinWrite) and end without a verdict.  DESIGN.md section 4, C03.
+_STR = ["common_file_operations::read_string / write_string / get_string_len -> byte-level models for ASCII text without interior NUL (the real ones are decided "
+        "by c17_read_string_ascii / c17_write_string_plain; they unwrap std Results with the multi-variant niche layout: CString::new, String::from_utf8)"]
+_APS = dict(_AP); _APS["stubs"] = _AP["stubs"] + _STR
+H("C03", "patch", "c03_apply_make_dir_tree", bounds=_APB + "F/M on ab/c.de: the parent directory is created, both existing files keep every byte", **_APS)
+H("C03", "patch", "c03_apply_delete_file", bounds=_APB + "F/D on ab/c.de: exactly the named file disappears, its neighbour keeps every byte; offset / size / expansion fields symbolic", **_APS)
 # C15: the file names patching writes (closures inside ZiPatch::apply) agree with Repository::dat_filename at these instances
 H("C15", "patch", "c03_apply_expand_data", bounds=_APB + "E creates /g/sqpack/ex1/0a0102.ps4.dat3: category, expansion, chunk, platform tag and data-file number as the read side names them", **_AP)
 H("C15", "patch", "c03_apply_delete_data", bounds=_APB + "D rewrites /g/sqpack/ex1/0a0102.win32.dat3 (and no other file)", **_AP)
